@@ -880,6 +880,10 @@ struct FloodVariant {
     /// sent after the flood in the "below" run (ends an open header block); counted frames in it
     terminator: Vec<u8>,
     terminator_counted: usize,
+    /// only the run to the trip point (no servable "below" run exists)
+    skip_below: bool,
+    /// in the "below" run the request of the flood itself may be refused (stream error); the connection must go on
+    below_may_refuse: bool,
 }
 
 fn flood_variants() -> Vec<FloodVariant> {
@@ -893,6 +897,8 @@ fn flood_variants() -> Vec<FloodVariant> {
         unit,
         terminator: vec![],
         terminator_counted: 0,
+        skip_below: false,
+        below_may_refuse: false,
     };
     // --- empty DATA (CVE-2019-9518): zero content, whatever the wire length
     let d_plain = frame(0, 0, 1, &[]);
@@ -942,6 +948,29 @@ fn flood_variants() -> Vec<FloodVariant> {
         let mut fv = mk(name, vec![frame(1, 0x1, 1, &block[..first])], 2, vec![frame(9, 0, 1, &[])]);
         fv.terminator = frame(9, 0x4, 1, &block[first..]);
         fv.terminator_counted = 1;
+        v.push(fv);
+    }
+    // --- oversized header block: the fragments accumulate in the connection buffer (16 393 bytes);
+    //     the CONTINUATION that does not fit any more is GOAWAY(ENHANCE_YOUR_CALM)
+    {
+        // a valid block of exactly 16 000 bytes: the request plus one field with a long value
+        let mut big = request_block(false, "/");
+        big.extend([0x00, 0x01, b'x', 0x7f]);
+        let vlen = 16000 - big.len() - 2;
+        let mut r = vlen - 127;
+        while r >= 128 {
+            big.push((r % 128) as u8 | 0x80);
+            r /= 128;
+        }
+        big.push(r as u8);
+        big.extend(vec![b'v'; 16000 - big.len()]);
+        let mut unit: Vec<Vec<u8>> = (0..5).map(|i| frame(9, 0, 1, &big[10000 + 1000 * i..11000 + 1000 * i])).collect();
+        unit.push(frame(9, 0, 1, &vec![b'v'; 1000]));
+        unit.push(frame(9, 0, 1, &vec![b'v'; 1000]));
+        let mut fv = mk("continuation:header_block_vs_buffer", vec![frame(1, 0x1, 1, &big[..10000])], 2, unit);
+        fv.terminator = frame(9, 0x4, 1, &big[15000..16000]);
+        fv.terminator_counted = 1;
+        fv.below_may_refuse = true; // a 16 KB header cannot be forwarded; refusing that stream is fine
         v.push(fv);
     }
     // --- glitch counter: frames on a closed stream
@@ -1407,6 +1436,238 @@ fn run_limits_case(bed: &Bed, vname: &str, entries: &[(u16, u32)], probe: Probe,
     v
 }
 
+// ------------------------------------------------ request-level family ----
+
+/// Decisions of handle_headers_frame / handle_data_frame / handle_priority_frame
+/// that are about one request: the header-list budget (pkawa.rs
+/// decode_headers_with_budget), content-length vs DATA (RFC 9113 8.1.1), PRIORITY
+/// self-dependency (5.3.1), PRIORITY_UPDATE for stream 0 (RFC 9218 7.1), frames
+/// interleaved into a header block (6.2 / 6.10). Verdicts: the Lean functions
+/// headerBudget / contentLengthRun / priorityVerdict through the driver, or the
+/// RFC sentence quoted at the case.
+struct ReqCase {
+    name: String,
+    /// frames sent in one write (after the handshake), before the sync PING
+    send: Vec<u8>,
+    /// the stream whose answer is judged
+    target: u32,
+    /// model op (empty: `rfc` holds the expected line)
+    model_op: String,
+    rfc: &'static str,
+    /// when the verdict is `handled`: must the request on `target` be answered 200?
+    expect_200: bool,
+}
+
+fn literal_field(name: &[u8], value: &[u8]) -> Vec<u8> {
+    // literal header field without indexing, new name (RFC 7541 6.2.2)
+    fn int(prefix_bits: u8, first: u8, v: usize, out: &mut Vec<u8>) {
+        let max = (1usize << prefix_bits) - 1;
+        if v < max {
+            out.push(first | v as u8);
+        } else {
+            out.push(first | max as u8);
+            let mut r = v - max;
+            while r >= 128 {
+                out.push((r % 128) as u8 | 0x80);
+                r /= 128;
+            }
+            out.push(r as u8);
+        }
+    }
+    let mut b = vec![0x00];
+    int(7, 0, name.len(), &mut b);
+    b.extend_from_slice(name);
+    int(7, 0, value.len(), &mut b);
+    b.extend_from_slice(value);
+    b
+}
+
+fn request_cases() -> Vec<ReqCase> {
+    let mut v = vec![];
+    // the four pseudo-header fields of request_block(GET "/"): (name length, value length)
+    let pseudo = "7:3,7:5,5:1,10:9";
+    // ---- header budget: field count
+    for n in [123usize, 124, 125, 200] {
+        let mut block = request_block(false, "/");
+        for _ in 0..n {
+            block.extend(literal_field(b"a", b"b"));
+        }
+        let fields = format!("{pseudo}{}", ",1:1".repeat(n));
+        v.push(ReqCase { name: format!("req:header_fields:{}", 4 + n), send: frame(1, 0x5, 1, &block), target: 1, model_op: format!("hbudget 65536 128 {fields}"), rfc: "", expect_200: true });
+    }
+    // ---- header budget: decoded size through HPACK indexed references (a 4033-byte table entry)
+    for k in [15usize, 17, 20] {
+        let mut block = request_block(false, "/");
+        // literal with incremental indexing, new name "x", value 4000 x 'y'
+        block.extend([0x40, 0x01, b'x', 0x7f, 0xa1, 0x1e]);
+        block.extend(vec![b'y'; 4000]);
+        block.extend(vec![0xbe; k - 1]); // indexed field, dynamic table index 62
+        let fields = format!("{pseudo}{}", ",1:4000".repeat(k));
+        // within the budget the request is far larger than a buffer: only "answered, no crash" is required there
+        v.push(ReqCase { name: format!("req:header_list_bytes:{k}x4033"), send: frame(1, 0x5, 1, &block), target: 1, model_op: format!("hbudget 65536 128 {fields}"), rfc: "", expect_200: false });
+    }
+    // ---- content-length vs DATA
+    let post = |cl: Option<&str>| {
+        let mut b = request_block(true, "/hold/cl");
+        if let Some(cl) = cl {
+            b.extend([0x0f, 0x0d, cl.len() as u8]); // literal without indexing, name = content-length (static 28)
+            b.extend_from_slice(cl.as_bytes());
+        }
+        frame(1, 0x4, 1, &b)
+    };
+    let bodies: Vec<(&str, Option<&str>, Vec<(usize, bool, usize)>)> = vec![
+        ("exact_one_frame", Some("5"), vec![(5, true, 0)]),
+        ("exact_two_frames", Some("5"), vec![(2, false, 0), (3, true, 0)]),
+        ("exact_padded", Some("5"), vec![(5, true, 3)]),
+        ("too_much_first_frame", Some("5"), vec![(6, false, 0)]),
+        ("too_much_second_frame", Some("5"), vec![(2, false, 0), (4, false, 0)]),
+        ("too_little_at_end", Some("5"), vec![(2, false, 0), (2, true, 0)]),
+        ("empty_end_with_declared_5", Some("5"), vec![(0, true, 0)]),
+        ("declared_0_empty_end", Some("0"), vec![(0, true, 0)]),
+        ("declared_0_one_byte", Some("0"), vec![(1, false, 0)]),
+        ("no_content_length", None, vec![(3, false, 0), (4, true, 0)]),
+    ];
+    for (n, cl, frames) in bodies {
+        let mut send = post(cl);
+        for (len, es, pad) in &frames {
+            if *pad > 0 {
+                let mut p = vec![*pad as u8];
+                p.extend(vec![b'd'; *len]);
+                p.extend(vec![0u8; *pad]);
+                send.extend(frame(0, 0x8 | *es as u8, 1, &p));
+            } else {
+                send.extend(frame(0, *es as u8, 1, &vec![b'd'; *len]));
+            }
+        }
+        let fs = frames.iter().map(|(l, e, _)| format!("{l}:{}", *e as u8)).collect::<Vec<_>>().join(",");
+        v.push(ReqCase { name: format!("req:content_length:{n}"), send, target: 1, model_op: format!("clen {} {fs}", cl.unwrap_or("-")), rfc: "", expect_200: false });
+    }
+    // trailers end the stream: the DATA total must match as well
+    for (n, data, model) in [("trailers_after_3_of_5", 3usize, "clen 5 3:0,0:1"), ("trailers_after_5_of_5", 5, "clen 5 5:0,0:1")] {
+        let mut send = post(Some("5"));
+        send.extend(frame(0, 0, 1, &vec![b'd'; data]));
+        send.extend(frame(1, 0x5, 1, &literal_field(b"t", b"v")));
+        v.push(ReqCase { name: format!("req:content_length:{n}"), send, target: 1, model_op: model.into(), rfc: "", expect_200: false });
+    }
+    // ---- PRIORITY (deprecated scheme, still parsed): self-dependency
+    let hold1 = frame(1, 0x5, 1, &request_block(false, "/hold/prio"));
+    let prio = |sid: u32, dep: u32| frame(2, 0, sid, &[(dep >> 24) as u8, (dep >> 16) as u8, (dep >> 8) as u8, dep as u8, 16]);
+    for (n, pre, sid, dep, known, la) in [
+        ("known_self", hold1.clone(), 1u32, 1u32, 1, 0),
+        ("known_other", hold1.clone(), 1, 3, 1, 0),
+        ("idle_lookahead_self", hold1.clone(), 5, 5, 0, 1),
+        ("idle_lookahead_other", hold1.clone(), 5, 1, 0, 1),
+        ("idle_far_self", hold1.clone(), 201, 201, 0, 0),
+        ("closed_self", [hold1.clone(), frame(3, 0, 1, &8u32.to_be_bytes())].concat(), 1, 1, 0, 0),
+    ] {
+        let mut send = pre;
+        send.extend(prio(sid, dep));
+        v.push(ReqCase { name: format!("req:priority:{n}"), send, target: sid, model_op: format!("prio {known} {la} {sid} {dep}"), rfc: "", expect_200: false });
+    }
+    {
+        // HEADERS carrying the PRIORITY flag with a dependency on itself: the stream is known at that point
+        let mut p = vec![0, 0, 0, 3, 16];
+        p.extend(request_block(false, "/hold/prio"));
+        v.push(ReqCase { name: "req:priority:headers_flag_self".into(), send: frame(1, 0x25, 3, &p), target: 3, model_op: "prio 1 0 3 3".into(), rfc: "", expect_200: false });
+        let mut p = vec![0, 0, 0, 0, 16];
+        p.extend(request_block(false, "/"));
+        v.push(ReqCase { name: "req:priority:headers_flag_other".into(), send: frame(1, 0x25, 3, &p), target: 3, model_op: "prio 1 0 3 0".into(), rfc: "", expect_200: true });
+    }
+    // ---- RFC 9218 7.1: "If a server receives a PRIORITY_UPDATE with a Prioritized Stream ID of 0x00, it MUST
+    //      respond with a connection error of type PROTOCOL_ERROR"
+    v.push(ReqCase { name: "req:priority_update:stream0".into(), send: frame(0x10, 0, 0, &[0, 0, 0, 0, b'u', b'=', b'1']), target: 0, model_op: String::new(), rfc: "cerr 1", expect_200: false });
+    v.push(ReqCase { name: "req:priority_update:stream1".into(), send: [hold1.clone(), frame(0x10, 0, 0, &[0, 0, 0, 1, b'u', b'=', b'1'])].concat(), target: 1, model_op: String::new(), rfc: "handled", expect_200: false });
+    // ---- RFC 9113 6.2: "A HEADERS frame without the END_HEADERS flag set MUST be followed by a CONTINUATION frame
+    //      for the same stream. A receiver MUST treat the receipt of any other type of frame or a frame on a
+    //      different stream as a connection error of type PROTOCOL_ERROR."
+    let open_block = frame(1, 0x1, 1, &request_block(false, "/")[..2]);
+    for (n, f) in [
+        ("data_same_stream", frame(0, 0, 1, b"x")),
+        ("ping", frame(6, 0, 0, &[0; 8])),
+        ("headers_other_stream", frame(1, 0x5, 3, &request_block(false, "/"))),
+        ("continuation_other_stream", frame(9, 0x4, 3, &[])),
+        ("window_update_stream0", frame(8, 0, 0, &[0, 0, 0, 1])),
+        ("unknown_type", frame(0x42, 0, 0, &[])),
+    ] {
+        v.push(ReqCase { name: format!("req:inside_header_block:{n}"), send: [open_block.clone(), f].concat(), target: 1, model_op: String::new(), rfc: "cerr 1", expect_200: false });
+    }
+    // HPACK garbage is a connection error COMPRESSION_ERROR (RFC 9113 4.3)
+    v.push(ReqCase { name: "req:hpack_garbage".into(), send: frame(1, 0x5, 1, &[0xff, 0xff, 0xff, 0xff, 0xff, 0xff]), target: 1, model_op: String::new(), rfc: "cerr 9", expect_200: false });
+    v
+}
+
+fn run_request_case(bed: &Bed, case: &ReqCase, model: &str) -> Verdict {
+    let mut v = Verdict { fails: vec![], known: vec![], tags: vec![], observed: String::new() };
+    let fail = |v: &mut Verdict, class: &str, detail: String| v.fails.push((class.to_string(), format!("{}: {detail}", case.name)));
+    let mut c = match Client::connect(bed.front).and_then(|mut c| c.handshake().map(|_| c)) {
+        Ok(c) => c,
+        Err(e) => {
+            fail(&mut v, "handshake-failed", e);
+            return v;
+        }
+    };
+    let sync = [0xF0, 1, 2, 3, 4, 5, 6, 7];
+    let expected = if case.model_op.is_empty() { case.rfc.to_string() } else { model.to_string() };
+    let mut bytes = case.send.clone();
+    // inside an open header block a PING is itself the offending frame: no sync behind those
+    let inside_block = case.name.starts_with("req:inside_header_block");
+    if !inside_block {
+        bytes.extend(frame(6, 0, 0, &sync));
+    }
+    c.send(&bytes);
+    let end = c.read_until(CASE_DEADLINE, |fs| ping_acked(fs, &sync) || fs.iter().any(|f| f.ty == 7));
+    if expected == "handled" && case.expect_200 {
+        c.read_until(CASE_DEADLINE, |fs| stream_ended(fs, case.target) || fs.iter().any(|f| f.ty == 7 || (f.ty == 3 && f.sid == case.target)));
+    }
+    let observed = if let Some(g) = c.goaway() {
+        format!("cerr {g}")
+    } else if let Some((_, code)) = c.rst_codes().iter().find(|(sid, _)| *sid == case.target && case.target != 0) {
+        format!("serr {code}")
+    } else if ping_acked(&c.frames, &sync) {
+        "handled".to_string()
+    } else {
+        format!("silent({end:?})")
+    };
+    v.observed = observed.clone();
+    v.tags.push(format!("{}={observed}", case.name.rsplitn(2, ':').last().unwrap_or("")));
+    if observed != expected {
+        // a request within the header budget but far larger than a buffer may still be refused
+        // later on (it cannot be forwarded); that is another property's business - but it must be answered
+        // (and above the budget, the 16 KiB request buffer overflows first: `invalid_headers` pre-empts
+        // the byte accounting of decode_headers_with_budget, so the stream error carries PROTOCOL_ERROR;
+        // the budget branch itself needs buffers larger than 64 KiB)
+        let lenient = case.name.starts_with("req:header_list_bytes") && observed.starts_with("serr") && (expected == "handled" || expected.starts_with("serr"));
+        if !lenient {
+            let class = if observed.starts_with("silent") {
+                "request-frame-unanswered"
+            } else if case.name.starts_with("req:header_") {
+                "header-budget-verdict-differs-from-model"
+            } else if case.name.starts_with("req:content_length") {
+                "content-length-verdict-differs-from-model"
+            } else if case.name.starts_with("req:priority:") {
+                "priority-verdict-differs-from-model"
+            } else {
+                "request-level-wrong-answer"
+            };
+            fail(&mut v, class, format!("expected `{expected}`, observed `{observed}`"));
+        }
+    } else if observed == "handled" && case.expect_200 && !c.got_200(case.target) {
+        fail(&mut v, "admitted-request-not-served", format!("verdict handled but no 200 on stream {}; rst {:?}", case.target, c.rst_codes()));
+    }
+    if observed.starts_with("cerr") && c.read_until(CASE_DEADLINE, |_| false) != End::Closed {
+        fail(&mut v, "connection-not-released-after-goaway", observed.clone());
+    }
+    // a stream error must leave the connection usable
+    if observed.starts_with("serr") {
+        let n = 91;
+        c.send(&frame(1, 0x5, n, &request_block(false, "/")));
+        if c.read_until(CASE_DEADLINE, |fs| stream_ended(fs, n) || fs.iter().any(|f| f.ty == 7)) != End::Matched || !c.got_200(n) {
+            fail(&mut v, "healthy-stream-not-served-after-stream-error", format!("goaway {:?} rst {:?}", c.goaway(), c.rst_codes()));
+        }
+    }
+    v
+}
+
 // -------------------------------------------------------------------- main ----
 
 struct Verdict {
@@ -1710,7 +1971,7 @@ fn main() {
             }
         };
         for at in [false, true] {
-            if at && trip.is_none() {
+            if (at && trip.is_none()) || (!at && fv.skip_below) {
                 continue;
             }
             let v = run_flood_variant(&bed, fv, trip, at);
@@ -1740,6 +2001,31 @@ fn main() {
             } else {
                 good_sid += 2;
             }
+        }
+    }
+    // ---- request-level family: header budget, content-length, PRIORITY, header-block interleaving
+    {
+        let rcases: Vec<ReqCase> = request_cases().into_iter().filter(|c| !replaying || replay_names.iter().any(|n| *n == c.name)).collect();
+        let mut rinput = String::from("new\n");
+        for c in &rcases {
+            rinput.push_str(if c.model_op.is_empty() { "stream open priority" } else { &c.model_op });
+            rinput.push('\n');
+        }
+        let rmodel: Vec<String> = run_model(&args.driver, &rinput).into_iter().skip(1).collect();
+        for (i, c) in rcases.iter().enumerate() {
+            let v = run_request_case(&bed, c, rmodel.get(i).map(|x| x.as_str()).unwrap_or(""));
+            evaluations += 1;
+            nontrivial += 1;
+            for t in &v.tags {
+                *dist.entry(t.clone()).or_insert(0) += 1;
+            }
+            *dist.entry("kind:request".into()).or_insert(0) += 1;
+            for (class, detail) in &v.fails {
+                push_fail(&mut failures, class, detail, vec![format!("h2conn {}", c.name)]);
+            }
+        }
+        if !bed.worker.alive().is_alive() {
+            push_fail(&mut failures, "worker-died-or-wedged", "after the request-level family", vec![]);
         }
     }
     // ---- receive-limits family: peer SETTINGS vs the limits sozu advertises
@@ -1896,7 +2182,7 @@ fn finish(args: &Args, evaluations: u64, nontrivial: u64, failures: &[Value], kn
         "seed": args.seed,
         "evaluations": evaluations,
         "distinct_nontrivial": nontrivial,
-        "rule": "black box: one real worker (HTTPS listener, H1 backend), one TLS+h2 client connection per case: a complete random/corner frame after the settings exchange followed by a PING (verdict: the Lean decoder's: err c => GOAWAY(c), exact on stream 0 and for oversize, any of PROTOCOL/STREAM_CLOSED/FRAME_SIZE or a stream error when stream state is consulted first; ok => answered, never silence), PING/SETTINGS/WINDOW_UPDATE/CONTINUATION floods with the trip point predicted by the Lean flood model (acknowledged-frame count compared), empty-DATA and rapid-reset floods, zero increment, window overflow, stray CONTINUATION, 120 unanswered requests vs the advertised 100-stream limit, first-SETTINGS payloads vs the model's first_settings; flood-variant family: every flood kind in its wire-level variants (empty DATA unpadded / PADDED pad 0 / pad 5 / pad 255 / mixed, on an open and on a closed stream; PING plain / odd flags / ACK / mixed; SETTINGS empty / known entries / unknown ids / ACK / mixed; WINDOW_UPDATE stream 0 with small increments, reserved bit, flags; CONTINUATION with empty fragments after an empty or 2-byte HEADERS fragment; WINDOW_UPDATE / RST_STREAM / DATA floods on a closed stream (glitch counter); PRIORITY / PRIORITY_UPDATE / unknown-type floods, which no counter looks at) - the trip point is computed by the Lean model (decoded frame -> frameEvents -> detector) and the connection is driven once to one frame below it (must be served) and once exactly to it (must get GOAWAY(ENHANCE_YOUR_CALM) and be closed); receive-limits family: after peer SETTINGS (its MAX_FRAME_SIZE 16384 / 65536 / 2^24-1, INITIAL_WINDOW_SIZE 1 / 2^31-1, MAX_CONCURRENT_STREAMS 1 / 1000, HEADER_TABLE_SIZE, MAX_HEADER_LIST_SIZE, ENABLE_PUSH, all together with an unknown id; invalid values judged by the Lean handleSettings) frames at and above the limits sozu advertises - unknown-type and DATA frames of 16384 / 16385 / 70000 bytes sent in full, 3 full DATA frames inside the advertised window, 3 requests on the limit-2 listener, a plain request - must get the verdict of the Lean decoder (cdecode with the local bound) / history model, then a PING ACK or the GOAWAY; history family: frame sequences (new requests that the backend never answers, DATA with/without END_STREAM, WINDOW_UPDATE, RST_STREAM, PRIORITY, HEADERS on used/refused ids) on one connection of the limit-2 listener, a PING after every frame, the answer to each frame compared with the Lean history model connStep; stream-state family on a listener with h2_max_concurrent_streams=2: DATA/HEADERS/WINDOW_UPDATE/RST_STREAM/PRIORITY/CONTINUATION on a stream id that is idle (above every used id), implicitly closed (below), closed by END_STREAM (equal to / below the last id), closed by the peer's RST_STREAM, refused by the stream limit, refused while draining after SoftStop's GOAWAY (own worker), half-closed (remote), open - sent after the scene is established and in one batch with it, random odd ids in thorough; judged by an RFC 9113 5.1 table written here and compared exactly with the Lean table `headerVerdict`; afterwards a slot is freed and a new stream on the same connection must be answered 200; after a GOAWAY the connection must be closed; worker.alive(), a long-lived good connection and a fresh probe connection must keep being served",
+        "rule": "black box: one real worker (HTTPS listener, H1 backend), one TLS+h2 client connection per case: a complete random/corner frame after the settings exchange followed by a PING (verdict: the Lean decoder's: err c => GOAWAY(c), exact on stream 0 and for oversize, any of PROTOCOL/STREAM_CLOSED/FRAME_SIZE or a stream error when stream state is consulted first; ok => answered, never silence), PING/SETTINGS/WINDOW_UPDATE/CONTINUATION floods with the trip point predicted by the Lean flood model (acknowledged-frame count compared), empty-DATA and rapid-reset floods, zero increment, window overflow, stray CONTINUATION, 120 unanswered requests vs the advertised 100-stream limit, first-SETTINGS payloads vs the model's first_settings; flood-variant family: every flood kind in its wire-level variants (empty DATA unpadded / PADDED pad 0 / pad 5 / pad 255 / mixed, on an open and on a closed stream; PING plain / odd flags / ACK / mixed; SETTINGS empty / known entries / unknown ids / ACK / mixed; WINDOW_UPDATE stream 0 with small increments, reserved bit, flags; CONTINUATION with empty fragments after an empty or 2-byte HEADERS fragment; WINDOW_UPDATE / RST_STREAM / DATA floods on a closed stream (glitch counter); PRIORITY / PRIORITY_UPDATE / unknown-type floods, which no counter looks at) - the trip point is computed by the Lean model (decoded frame -> frameEvents -> detector) and the connection is driven once to one frame below it (must be served) and once exactly to it (must get GOAWAY(ENHANCE_YOUR_CALM) and be closed); request-level family: header-field count at 127/128/129/204 fields and decoded header-list size through HPACK indexed references (15/17/20 x 4033 bytes) vs the Lean headerBudget; content-length 5/0/absent against DATA bodies (exact, padded, too much in the first/second frame, too little at END_STREAM, empty END_STREAM, trailers) vs the Lean contentLengthRun; PRIORITY with self-dependency on a known / look-ahead idle / far idle / closed stream and in a HEADERS frame vs priorityVerdict; PRIORITY_UPDATE for stream 0; DATA / PING / HEADERS / CONTINUATION on another stream / WINDOW_UPDATE / unknown type inside an open header block (RFC 9113 6.2: PROTOCOL_ERROR); HPACK garbage (COMPRESSION_ERROR); after a stream error a new request on the same connection must be served; receive-limits family: after peer SETTINGS (its MAX_FRAME_SIZE 16384 / 65536 / 2^24-1, INITIAL_WINDOW_SIZE 1 / 2^31-1, MAX_CONCURRENT_STREAMS 1 / 1000, HEADER_TABLE_SIZE, MAX_HEADER_LIST_SIZE, ENABLE_PUSH, all together with an unknown id; invalid values judged by the Lean handleSettings) frames at and above the limits sozu advertises - unknown-type and DATA frames of 16384 / 16385 / 70000 bytes sent in full, 3 full DATA frames inside the advertised window, 3 requests on the limit-2 listener, a plain request - must get the verdict of the Lean decoder (cdecode with the local bound) / history model, then a PING ACK or the GOAWAY; history family: frame sequences (new requests that the backend never answers, DATA with/without END_STREAM, WINDOW_UPDATE, RST_STREAM, PRIORITY, HEADERS on used/refused ids) on one connection of the limit-2 listener, a PING after every frame, the answer to each frame compared with the Lean history model connStep; stream-state family on a listener with h2_max_concurrent_streams=2: DATA/HEADERS/WINDOW_UPDATE/RST_STREAM/PRIORITY/CONTINUATION on a stream id that is idle (above every used id), implicitly closed (below), closed by END_STREAM (equal to / below the last id), closed by the peer's RST_STREAM, refused by the stream limit, refused while draining after SoftStop's GOAWAY (own worker), half-closed (remote), open - sent after the scene is established and in one batch with it, random odd ids in thorough; judged by an RFC 9113 5.1 table written here and compared exactly with the Lean table `headerVerdict`; afterwards a slot is freed and a new stream on the same connection must be answered 200; after a GOAWAY the connection must be closed; worker.alive(), a long-lived good connection and a fresh probe connection must keep being served",
         "samples": samples,
         "traces_validated_against_impl": evaluations - failures.len() as u64,
         "disagreements_checked": evaluations,
